@@ -5,13 +5,14 @@
 
 pub use crate::{
     crypto::noise::{
-        handshake, verif::Resolver as NoiseResolver, HandshakeTransport, NoiseSocket, MAX_FRAME_LEN,
+        handshake, verif as noise_payload, verif::Resolver as NoiseResolver, HandshakeTransport,
+        NoiseSocket, MAX_FRAME_LEN,
     },
     transport::tcp::verif as tcp,
     multistream_select::{
         dialer_select_proto, listener_select_proto, webrtc_listener_negotiate, HandshakeResult,
         HeaderLine, ListenerSelectResult, Message, Negotiated, NegotiationError, Protocol,
-        ProtocolError, Version, WebRtcDialerState,
+        ProtocolError, Version, WebRtcDialerState, VERIF_MAX_FRAME_SIZE,
     },
     transport::manager::address::{scores, AddressRecord, AddressStore},
 };
